@@ -1,12 +1,13 @@
 package codegen
 
 import (
+	"fmt"
 	"strconv"
 
 	"github.com/HobbyOSs/gosk/pkg/ocode"
 )
 
-func handleINT(ocode ocode.Ocode) []byte {
+func handleINT(ocode ocode.Ocode) ([]byte, error) {
 	// INT命令は2バイトの命令
 	// 1バイト目: 0xCD (INT命令のオペコード)
 	// 2バイト目: 割り込み番号
@@ -14,7 +15,7 @@ func handleINT(ocode ocode.Ocode) []byte {
 
 	// 割り込み番号を取得
 	if len(ocode.Operands) != 1 {
-		panic("INT instruction requires one operand")
+		return nil, fmt.Errorf("INT instruction requires one operand, got %d", len(ocode.Operands))
 	}
 
 	// 0xを除去して16進数として解析
@@ -25,11 +26,11 @@ func handleINT(ocode ocode.Ocode) []byte {
 	// Parse as decimal (base 10)
 	num, err := strconv.ParseInt(intNum, 10, 8) // Change base to 10
 	if err != nil {
-		panic("Failed to parse INT number (decimal): " + err.Error()) // Update panic message
+		return nil, fmt.Errorf("failed to parse INT number %q: %w", ocode.Operands[0], err)
 	}
 
 	// 割り込み番号を追加
 	binary = append(binary, byte(num))
 
-	return binary
+	return binary, nil
 }
